@@ -113,6 +113,13 @@ sh(['git', '-C', '/repo', 'worktree', 'prune'])
 path = f'{VERIF}/seeded/RESULTS.json'
 res = json.load(open(path)) if os.path.exists(path) else {}
 res.update(results)
+# a change that is outside the property's domain by design keeps its explanation (recorded in its meta.json)
+for sid in res:
+    try:
+        note = json.load(open(f'{VERIF}/seeded/{sid}/meta.json')).get('not_detected_by_design')
+        if note: res[sid]['note'] = note
+    except Exception:
+        pass
 json.dump(dict(sorted(res.items())), open(path, 'w'), indent=1)
 det = sum(1 for s in ids if results.get(s, {}).get('detected'))
 print(f'{det}/{len(ids)} detected; missed: {[s for s in ids if not results.get(s, {}).get("detected")]}')
